@@ -5,6 +5,7 @@ package caching
 import (
 	"sort"
 	"sync/atomic"
+	"unsafe"
 
 	"github.com/bytedance/sonic/internal/rt"
 )
@@ -32,4 +33,22 @@ func (self *ProgramCache) VerifEntries() (keys []*rt.GoType, vals []interface{})
 		}
 	}
 	return
+}
+
+// VerifPrefilled builds a cache whose current table has `slots` slots (a power of two; 0 =
+// the default initial capacity) and already holds the given entries, built in ONE table (no
+// copy-on-write step per entry). A small table puts the rehash boundary (load factor 0.5)
+// within a few insertions, so that scenarios around a rehash have short loops: the code
+// under test (get/add/copy/rehash/insert) is the same, only the table is smaller.
+func VerifPrefilled(slots int, keys []*rt.GoType, vals []interface{}) *ProgramCache {
+	m := newProgramMap()
+	if slots > 0 {
+		m = &_ProgramMap{m: uint32(slots - 1), b: make([]_ProgramEntry, slots)}
+	}
+	for i, k := range keys {
+		m.insert(k, vals[i])
+	}
+	pc := CreateProgramCache()
+	atomic.StorePointer(&pc.p, unsafe.Pointer(m))
+	return pc
 }
